@@ -201,6 +201,12 @@ Save(u) ==
     /\ hist' = Append(hist, [k |-> "save", u |-> u, t |-> doc[u], exp |-> doc[u]])
     /\ UNCHANGED <<doc, open, fresh, first>>
 
+\* a request (hover, definition, highlight ...) reads the document: it never changes the text on either side
+Query(u) ==
+    /\ More /\ open[u]
+    /\ hist' = Append(hist, [k |-> "query", u |-> u, exp |-> doc[u]])
+    /\ UNCHANGED <<doc, open, fresh, first>>
+
 Close(u) ==
     /\ More /\ open[u]
     /\ open' = [open EXCEPT ![u] = FALSE]
@@ -271,7 +277,7 @@ SimOpen(u) ==
        /\ UNCHANGED first
 
 NextSim == \E u \in Uris : \/ SimChange1(u) \/ SimChange2(u) \/ SimFull(u) \/ SimFullRange(u)
-                           \/ Save(u) \/ Close(u) \/ SimOpen(u)
+                           \/ Save(u) \/ Close(u) \/ SimOpen(u) \/ Query(u)
 
 NextBatch2 == \E u \in Uris : ChangeRange2(u) \/ ChangeFullRange(u)
 
